@@ -34,7 +34,6 @@ def run(ctx):
         vlib.tlc_mc(ctx, "Gossip", "Gossip_MC_quick.cfg", coverage=True, label="prop")
         if not ctx.quick:
             vlib.tlc_mc(ctx, "Gossip", "Gossip_MC_assigner.cfg", coverage=True, label="assigner")
-            vlib.tlc_mc(ctx, "Gossip", "Gossip_MC_smallcache.cfg", coverage=True, label="smallcache", timeout=2400)
         for cfg, inv in (("nocache", "Selection"), ("dropsent", "KeepsLive")):
             r = vlib.tlc_mc(ctx, "Gossip", "Gossip_MC_%s.cfg" % cfg, label=cfg, expect_violation=True)
             if not r["violated"] or inv not in r["violated"]:
